@@ -747,6 +747,14 @@ class Walker:
     IDENTITY_METHODS = {"clone", "to_string", "into", "as_str", "as_ref", "to_owned", "borrow", "as_mut", "borrow_mut",
                         "iter", "iter_mut", "into_iter", "as_bytes", "trim_end", "cloned", "copied", "deref", "to_vec", "as_slice"}
 
+    def lookup_aliases(self):
+        la = getattr(self.facts, "_lookup_aliases", None)
+        if la is None:
+            from scopes import lookup_helpers
+            la = lookup_helpers(self.facts, ("variables", "functions"))
+            self.facts._lookup_aliases = la
+        return la
+
     def ev_mcall(self, n, state):
         def f(st, vs):
             recv, args = vs[0], vs[1:]
@@ -798,6 +806,11 @@ class Walker:
                 rt = self.method_ret(name)
             akeys = [(a.key if isinstance(a, Sym) else (repr(a.v) if isinstance(a, Const) else expr_text(an))) for a, an in zip(args, n["args"])]
             key = (recv.key if isinstance(recv, Sym) else expr_text(n["recv"])) + "." + name + "(" + ",".join(akeys) + ")"
+            la = self.lookup_aliases().get(name)
+            if la is not None and len(akeys) > la[1]:
+                # every helper that looks a name up in the same table denotes the same entry:
+                # get_variable(n) and find_variable(n, pos)? are one symbolic value
+                key = (recv.key if isinstance(recv, Sym) else expr_text(n["recv"])) + ".lookup:" + la[0] + "(" + akeys[la[1]] + ")"
             if name in self.STATEFUL_METHODS:
                 # each call yields a new value: never share constraints/atoms between two calls
                 st = st.copy()
